@@ -167,6 +167,11 @@ def close(registry, filename, private=True):
                 else:
                     s = 'CENSORED'
                 fd.write('%s: %s\n' % (name, s))
+            except EnvironmentError:
+                # An I/O error on the file is not a value that can't be
+                # printed: let the AtomicFile roll back instead of committing
+                # a configuration file that lacks this value.
+                raise
             except Exception:
                 exception('Exception printing value:')
     fd.close()
